@@ -822,6 +822,11 @@ class Consumption:
         start = State({fi.init: itercost})
         if isinstance(loop, ast.While):
             start = self.refine(fi, start, loop.test, True)
+        elif fi.bound_vars:
+            # the loop target has just been bound by the iteration (as in _loop)
+            for x in ast.walk(loop.target):
+                if isinstance(x, ast.Name) and ("@" + x.id) in fi.index:
+                    start = self.assign_flag(fi, start, "@" + x.id, True)
         rel = self.walk(f, loop.body, start, test_vars, lits)
         back = rel.get("fall", State()).joined(rel.get("continue", State()))
         return back.minval()
@@ -938,6 +943,7 @@ def check_termination(ctx, prog: Program, lits):
     if not rec:
         ctx.ok("R4", f"call graph of {len(reach)} loader-reachable functions is acyclic", "iodata/formats")
     nloops = 0
+    nfor = 0
     for f in sorted(reach, key=lambda x: x.qualname):
         flits = cons.lit_names(f)
         for n in f.own_nodes():
@@ -964,6 +970,16 @@ def check_termination(ctx, prog: Program, lits):
                     ctx.violate("R4", f"while loop may spin: a cycle with net line consumption {c} and no strict progress on a test variable exists", f, n, construct="while " + src_of(n.test))
             elif isinstance(n, ast.For):
                 it = n.iter
+                if isinstance(it, ast.Name) and it.id in flits and any(isinstance(x, ast.Call) and isinstance(x.func, ast.Attribute) and x.func.attr == "back" for x in ast.walk(n)):
+                    # `for line in lit:` ends by exhaustion only if every turn that comes back to the head has consumed
+                    # a line net of push-backs (`lit.back(line)` followed by `continue` delivers the same line forever)
+                    nfor += 1
+                    cyc = cons.cycle_min(f, n, flits)
+                    where = f"{f.module.relpath}:{n.lineno}"
+                    if cyc is None or cyc >= 1:
+                        ctx.ok("R4", f"{f.name}: for {src_of(n.target)} in {it.id}: every turn that returns to the head consumes >= 1 line net of push-backs", where, sample=(nfor % 4 == 1))
+                    else:
+                        ctx.violate("R4", f"for-loop over the line iterator may spin: a turn that puts its line back returns to the loop head (net consumption {'-inf' if cyc <= NEG // 2 else cyc}); the same line is delivered again", f, n, construct=f"for {src_of(n.target)} in {it.id} with push-back")
                 r = prog.resolve_expr(f, f.module, it.func) if isinstance(it, ast.Call) else None
                 bad = bool(r and r[0] == "external" and r[1] in ("itertools.count", "itertools.cycle", "itertools.repeat"))
                 bad = bad or (isinstance(it, ast.Call) and isinstance(it.func, ast.Name) and it.func.id == "iter" and len(it.args) == 2)
